@@ -68,6 +68,11 @@ func gen(t *rapid.T) Case {
 	if rapid.IntRange(0, 5).Draw(t, "big") == 0 {
 		n = rapid.IntRange(30, 120).Draw(t, "nnodes2")
 	}
+	if rapid.IntRange(0, 149).Draw(t, "thousands") == 77 {
+		// thousands of nodes: the index the network keeps its nodes in (fan-out 25 to 50) gets a third level from
+		// about two thousand entries on
+		n = rapid.IntRange(2200, 3200).Draw(t, "nnodes3")
+	}
 	w := int(math.Ceil(math.Sqrt(float64(n)))) + rapid.IntRange(0, 3).Draw(t, "slack")
 	used := map[[2]int]bool{}
 	for len(c.Nodes) < n {
@@ -141,6 +146,9 @@ func gen(t *rapid.T) Case {
 	conn := rapid.IntRange(1, n).Draw(t, "connected")
 	if grid {
 		conn = 1
+	}
+	if n >= 2000 && !grid {
+		conn = n // all of them linked: the network really holds thousands of nodes
 	}
 	for i := 1; i < conn; i++ {
 		addLink(rapid.IntRange(0, i-1).Draw(t, "parent"), i)
@@ -518,6 +526,9 @@ func run(c Case) (v vkit.Verdict) {
 	if c.Huge != 0 {
 		v.Class("coordinates_times_2^520_and_more")
 	}
+	if len(c.Nodes) >= 2000 {
+		v.Class("thousands_of_nodes")
+	}
 	if c.Trap {
 		v.Class("link_end_within_tolerance_of_a_node_that_is_not_its_nearest")
 	}
@@ -606,7 +617,8 @@ func TestProp(t *testing.T) {
 			"start/endDistance = distances to those nodes, chain cost = Dijkstra optimum (1e-9), empty iff same node or disconnected. Non-trivial = the optimal chain has more links " +
 			"than the fewest-links chain between the same nodes. Distinct by case hash." +
 			" Round 10: 'trap' networks (1 eligible case in 8): moved 1e8 along x only, two more nodes and links so that a link end lies within tolerance of a node that is not its nearest." +
-			" Round 11: one eligible case in twelve multiplies every coordinate by 2^520, 2^540, 2^600 or 2^700.",
+			" Round 11: one eligible case in twelve multiplies every coordinate by 2^520, 2^540, 2^600 or 2^700." +
+			" Round 12: one case in 150 has 2200-3200 nodes, all linked.",
 		Assumptions: []string{"ties for the nearest node are resolved by accepting any nearest node"},
 		Gen:         gen,
 		Run:         run,
